@@ -195,6 +195,24 @@ def run(R, tier):
                             {'algebra': spec, 'op': 'registered', 'keys': [list(ku), list(kv_)], 'coefficients': 'float', 'traced': dict(traced)},
                             f'registered functions were traced {traced} times for ONE key pattern {ku}, {kv_} in Algebra({algs.describe(spec)}) '
                             f'(inner is called directly and from inside outer1 and outer2)')
+            # a call that fails while the generated function is EVALUATED (division by an element that is numerically zero), then the same
+            # key pattern again with proper values: nothing is generated again
+            kz = tuple(rng.sample(canon[1:], 1))
+            for uop in ('inv', 'normalized'):
+                def zcall(vals_):
+                    try:
+                        getattr(alg, uop)(oc.make_mv(alg, list(kz), vals_)) if uop == 'inv' else oc.make_mv(alg, list(kz), vals_).normalized()
+                    except Exception:  # noqa
+                        pass
+                zcall([2.0])
+                e0, c0 = len(probe.events), probe.compiles
+                zcall([0.0]); zcall([3.0]); zcall([0]); zcall([5.0])
+                R.count('evaluation-failure=then-repeat'); R.case(('eval-fail', ai, uop), True)
+                if len(probe.events) != e0 or probe.compiles != c0:
+                    R.violation({'clause': 'regenerated', 'coeff': 'evaluation-failure'},
+                                {'algebra': spec, 'op': uop, 'keys': [list(kz)], 'coefficients': 'float', 'events': [(e[1], str(e[2])) for e in probe.events[e0:]][:4], 'compile_calls': probe.compiles - c0},
+                                f'{uop} on keys {kz} in Algebra({algs.describe(spec)}): after a call that failed at evaluation time (zero operand) the same pattern generated '
+                                f'{len(probe.events) - e0} functions and called compile() {probe.compiles - c0} times')
             # integer powers (x ** n, n up to +-6), repeated with the same key pattern and fresh values: whatever machinery a power uses,
             # nothing is generated or compiled on the repetitions
             kp = tuple([0] + rng.sample(canon[1:], 1))
